@@ -17,6 +17,7 @@ import (
 )
 
 var allRules []*Rule
+var dumpJSONFlag bool
 
 func register(r *Rule) { allRules = append(allRules, r) }
 
@@ -102,6 +103,7 @@ func main() {
 		if len(pos) != 1 {
 			usage()
 		}
+		dumpJSONFlag = *jsonOut
 		os.Exit(runDump(pos[0], *repo, *onlyBad))
 	case "selftest":
 		os.Exit(runSelftest(*verif))
@@ -379,6 +381,7 @@ func runReplay(path, repo, verif string) int {
 }
 
 func runDump(rule, repo string, onlyBad bool) int {
+	dumpJSON := dumpJSONFlag
 	c, err := loadRepo(repo, loadOpts{})
 	if err != nil {
 		fmt.Printf("CANNOT-ANALYSE: %v\n", err)
@@ -397,6 +400,32 @@ func runDump(rule, repo string, onlyBad bool) int {
 	}
 	rep := runRules(c, rules)
 	sortObs(rep.Obs)
+	if dumpJSON {
+		var sel []Ob
+		for _, ob := range rep.Obs {
+			if onlyBad && ob.Status == OK {
+				continue
+			}
+			sel = append(sel, ob)
+		}
+		for _, r := range rules {
+			n := 0
+			for _, ob := range rep.Obs {
+				if ob.Rule == r.ID {
+					n++
+				}
+			}
+			if n < r.Floor {
+				sel = append(sel, Ob{Rule: r.ID, Key: r.ID + "|below-floor", Status: Undecided, Pos: "-", Msg: fmt.Sprintf("%d obligations, floor %d", n, r.Floor)})
+			}
+		}
+		if sel == nil {
+			sel = []Ob{}
+		}
+		b, _ := json.Marshal(sel)
+		fmt.Println(string(b))
+		return 0
+	}
 	bad := 0
 	for _, ob := range rep.Obs {
 		if ob.Status != OK {
